@@ -384,3 +384,43 @@ func vpH_C17_prefix() {
 	vpMatchesModel("abc", obsAll, vpBuildExpect(docs, vpFieldNames(docs)), vpMatchOpts{merged: true, skipStats: vpSkipMergedStats})
 	vpReach("C17 prefix end")
 }
+
+func init() { vpRegister("vpH_C17_onehit", vpH_C17_onehit) }
+
+// C17 identity on the 1-hit path with a WIDE symbolic frequency: a term without
+// locations that survives in exactly one document (a merge may write it 1-hit only if
+// its frequency is exactly 1 - for every 62-bit frequency, also those whose low 32 bits
+// are 1); the single-segment merge, and the two-segment merge in which the second
+// holder of the term is deleted, read back like the build of the survivors.
+func vpH_C17_onehit() {
+	fr := 1 + int(vpRange("freq.wide", 0, 1<<62-2))
+	mk := func(term string, freq int) *vpDoc {
+		return &vpDoc{fields: []*vpField{{name: "f", length: 3, terms: []*vpTerm{{term: []byte(term), freq: freq}, {term: []byte("k"), freq: 2}}}}}
+	}
+	a := []*vpDoc{mk("t", fr), mk("u", 1)}
+	sa := vpBuild(a, 1025)
+	var mb []byte
+	surv := a
+	if vpChoice("inputs", 2) == 0 {
+		vpNote("op:Merge([a])")
+		mb, _ = vpMergeBytes([]*Segment{sa}, []*roaring.Bitmap{nil}, 1025)
+	} else {
+		vpNote("op:Merge([a,b]) with b's holder of the term deleted")
+		b := []*vpDoc{mk("t", 7), mk("w", 1)}
+		dr := roaring.New()
+		dr.Add(0)
+		mb, _ = vpMergeBytes([]*Segment{sa, vpBuild(b, 1025)}, []*roaring.Bitmap{nil, dr}, 1025)
+		surv = []*vpDoc{a[0], a[1], b[1]}
+	}
+	seg := vpLoad(mb)
+	exp := vpBuildExpect(surv, []string{"f"})
+	d, err := seg.Dictionary("f")
+	vpMust(err, "Dictionary")
+	for _, term := range []string{"t", "u", "k"} {
+		pl, err := d.PostingsList([]byte(term), nil, nil)
+		vpMust(err, "PostingsList")
+		vpAssert(pl.Count() == uint64(len(exp.post["f"][term])), "identity merge: Count")
+		vpPostingsMatch("identity merge, term "+term, vpReadPostings2(pl), exp.post["f"][term])
+	}
+	vpReach("C17 onehit end")
+}
